@@ -966,6 +966,20 @@ func (ev *evaluator) evalCall(x *ECall) SV {
 			return SV{v, types.Typ[types.Int]}
 		}
 		return SV{intLit(0), types.Typ[types.Int]}
+	case "sawEmpty":
+		// sawEmpty("Struct.field"): the function's latest observation of the channel is "empty" (default
+		// branch of a non-blocking select over it, no successful receive since)
+		key := ""
+		switch a := x.Args[0].(type) {
+		case *EStr:
+			key = a.Val
+		default:
+			key = describeExpr(a)
+		}
+		if v, ok := ev.curState().cells[cellKey{0, "sawempty:" + key}].(Term); ok {
+			return SV{v, boolT}
+		}
+		return SV{tFalse, boolT}
 	case "ctxDone":
 		// ctxDone(c): has the function observed context c as done (received from c.Done(), or saw c.Err() != nil)
 		c, _ := ev.evalTerm(x.Args[0])
